@@ -33,7 +33,7 @@ def main():
     try:
         rc_path = os.path.join(scratch, "coveragerc")
         with open(rc_path, "w") as f:
-            f.write(f"[run]\nbranch = True\nparallel = True\nconcurrency = multiprocessing\nsigterm = True\n"
+            f.write(f"[run]\nbranch = True\nparallel = True\nconcurrency = multiprocessing\n"
                     f"data_file = {scratch}/data/.coverage\nsource =\n    {REPO}/edgegraph\n")
         os.makedirs(os.path.join(scratch, "data"))
         site = os.path.join(scratch, "site")
